@@ -121,6 +121,7 @@ func (s *STP) SerializeTo(b gopacket.SerializeBuffer, opts gopacket.SerializeOpt
 		return errors.New("Invalid VlanID value ..!")
 	}
 	binary.BigEndian.PutUint16(bytes[5:7], prioRoot|s.RouteID.SysID)
+	copy(bytes[7:13], lotsOfZeros[:]) // a short address is zero padded, not left as the buffer was
 	copy(bytes[7:13], s.RouteID.HwAddr)
 
 	binary.BigEndian.PutUint32(bytes[13:17], s.Cost)
@@ -133,6 +134,7 @@ func (s *STP) SerializeTo(b gopacket.SerializeBuffer, opts gopacket.SerializeOpt
 		return errors.New("Invalid VlanID value ..!")
 	}
 	binary.BigEndian.PutUint16(bytes[17:19], prioBridge|s.BridgeID.SysID)
+	copy(bytes[19:25], lotsOfZeros[:]) // a short address is zero padded, not left as the buffer was
 	copy(bytes[19:25], s.BridgeID.HwAddr)
 
 	binary.BigEndian.PutUint16(bytes[25:27], s.PortID)
